@@ -553,7 +553,7 @@ func planC14(t *testing.T, tier string, seed uint64) ([]RunSpec, error) {
 	var plan []RunSpec
 	seeds := 10
 	if !quick(tier) {
-		seeds = 400
+		seeds = 2500
 	}
 	idx := 0
 	for pi, p := range c14Corpus {
